@@ -340,6 +340,33 @@ def name_resolution_stream(ctx, wd, rng, reps, stats):
     return outcome
 
 
+def nested_def_probe(ctx, wd, stats):
+    """Outside the generator's grammar: a nested function definition with its own return annotation (the construct
+    Scan / SequenceMap bodies are written with).  Accepted => the ModelProto passes the checker in strict mode."""
+    from harness import c01
+    mod, exc = c01_run.load(wd, "c02_nested_def", c01.NESTED_DEF_SRC)
+    ctx.case(("valid", "corpus:cf_nested_def"))
+    if exc is not None:
+        stats["nested_def_refused"] += 1
+        if type(exc).__name__ not in c01_run.DESCRIPTIVE:
+            ctx.violation(f"C02:crash:{type(exc).__name__}@{crash_site(exc)}", f"decorator crashed on a nested function definition: {exc!r}",
+                          {"source": c01.NESTED_DEF_SRC})
+        return
+    try:
+        mp = mod.cf_nested_def.to_model_proto()
+    except Exception as e:  # noqa: BLE001
+        ctx.violation(f"C02:to_model_proto-raises:{type(e).__name__}@{crash_site(e)}", f"to_model_proto() raised {e!r}", {"source": c01.NESTED_DEF_SRC})
+        return
+    err = c01_run.check_model(mp)
+    if err is not None:
+        declared = int(mp.graph.output[0].type.tensor_type.elem_type)
+        key = ("C02:check_model:nested-def-return-annotation-overwrites-enclosing-return-types" if declared != 1
+               else f"C02:check_model:{classify_checker_error(err)}")
+        ctx.violation(key, "the return annotation of a nested function definition replaces the enclosing function's declared return types; "
+                           f"onnx.checker.check_model(full_check=True) rejects the ModelProto: {err[:300]}",
+                      {"source": c01.NESTED_DEF_SRC, "declared_output_elem_type": declared})
+
+
 def run(ctx):
     ctx.assume("onnx.checker (check_model full_check=True, check_function) is an oracle: its C++ code is outside the model")
     ctx.assume("generated programs are well typed under the ONNX reading (typed grammar); the checker is only run on such programs")
@@ -357,6 +384,7 @@ def run(ctx):
     model_side = []
     n_model = 90 if quick else 700
     try:
+        nested_def_probe(ctx, wd, stats)
         corpus = c01_gen.load_corpus()
         for i in range(-len(corpus), n_prog):
             straight = (i % 10 == 0)
